@@ -238,3 +238,44 @@ def e7_minimise_bookkeeping(ctx) -> None:
     else:
         ctx.violation("E7", gs.node, "get_specification_rules must extract for (self.root_label, self, self.classdb, self.strategy_pack)",
                       construct="RuleDBForest.get_specification_rules extractor")
+
+
+INPLACE = {"pop", "clear", "append", "extend", "remove", "insert", "add", "discard", "update", "sort", "reverse", "popleft", "appendleft"}
+
+
+def e8_alias_discipline(ctx) -> None:
+    """A local name that aliases a container owned by `self` (x = self.attr[...] / self.attr)
+    and is emptied / filled in place is never re-bound: sibling calls read the container
+    through its owner, so `x = x[:i]` silently stops updating what they see."""
+    P = ctx.P
+    n = 0
+    for cname in ("ForestRuleExtractor", "TableMethod", "RuleDBForest"):
+        cls = P.need_class(cname)
+        for m in cls.methods.values():
+            f = m.node
+            defs = D.definitions(f)
+            for name, ds in defs.items():
+                owners = [d for d in ds if d[3] == "assign" and d[1] is not None and not d[2] and _is_self_container(d[1])]
+                if not owners:
+                    continue
+                muts = [c for c in walk_local(f) if isinstance(c, ast.Call) and isinstance(c.func, ast.Attribute) and c.func.attr in INPLACE
+                        and isinstance(c.func.value, ast.Name) and c.func.value.id == name]
+                if not muts:
+                    continue
+                n += 1
+                ctx.analysed(m)
+                others = [d for d in ds if d not in owners]
+                if others:
+                    for d in others:
+                        ctx.violation("E8", d[0], f"`{name}` aliases `{norm(owners[0][1])}` and is updated in place elsewhere in {m.qualname}, but here it is re-bound: "
+                                      "the container its owner (and every later minimisation step) sees is left untouched")
+                else:
+                    ctx.ok("E8", f"{m.qualname}: `{name}` (alias of {norm(owners[0][1])}) is only ever updated in place")
+    if n < 1:
+        ctx.floor("E8", 99)
+
+
+def _is_self_container(e: ast.AST) -> bool:
+    while isinstance(e, ast.Subscript):
+        e = e.value
+    return isinstance(e, ast.Attribute) and isinstance(e.value, ast.Name) and e.value.id == "self"
